@@ -154,7 +154,7 @@ class LiteDRAMAvalonMM2Native(LiteXModule):
             ).Elif(burst_count == 0,
                 avalon.waitrequest.eq(1),
                 # Wait for the FIFO to be empty
-                If((cmd_fifo.level == 0) & (wdata_fifo.level == 1) & port.wdata.ready,
+                If(~cmd_fifo.source.valid & ~wdata_fifo.source.valid,
                     NextState("START")
                 )
             ),
@@ -162,7 +162,7 @@ class LiteDRAMAvalonMM2Native(LiteXModule):
             # FIFO consumer
             port.cmd.addr.eq(cmd_fifo.source.payload.address),
             port.cmd.we.eq(port.cmd.valid),
-            port.cmd.valid.eq(cmd_fifo.source.valid & (0 < wdata_fifo.level)),
+            port.cmd.valid.eq(cmd_fifo.source.valid),
             cmd_fifo.source.ready.eq(port.cmd.ready),
 
             port.wdata.data.eq(wdata_fifo.source.payload.data),
